@@ -40,7 +40,7 @@ theorem pendKeyOf_restoreTarget (p : Packet) : pendKeyOf (restoreTarget p) = pen
   obtain ⟨_, b, c, d, e, f, _⟩ := restoreTarget_fields p
   exact pendKeyOf_congr b c d e f
 
-theorem pendKeyOf_finalizedRecord (p : Packet) (b : Bool) : pendKeyOf (finalizedRecord p b) = pendKeyOf p :=
+theorem pendKeyOf_finalizedRecord (p : Packet) (b : Option PErr) : pendKeyOf (finalizedRecord p b) = pendKeyOf p :=
   pendKeyOf_congr rfl rfl rfl rfl rfl
 
 -- ------------------------------------------------------------------ the invariant
@@ -86,6 +86,11 @@ theorem oframe_sendCoins {s s' : St} {a b d v} (h : sendCoins s a b d v = some s
     · cases h
     · cases h; exact ⟨rfl, rfl, rfl, rfl⟩
 
+theorem oframe_setChanClosed {s s' : St} {c : Nat} {b : Bool} (h : setChanClosed s c b = .ok s') : OFrame s s' := by
+  unfold setChanClosed at h; split at h
+  · cases h
+  · cases h; exact ⟨rfl, rfl, rfl, rfl⟩
+
 theorem oframe_icsCredit {s s' : St} {p} (h : icsCredit s p = some s') : OFrame s s' := by
   unfold icsCredit at h
   split at h
@@ -128,7 +133,9 @@ theorem oframe_releaseEffect (s : St) (p : Packet) : OFrame s (releaseEffect s p
     have h2 : ∀ (s1 : St) (b : Bool), OFrame s1 (writeRecvAck s1 p b).1 := by
       intro s1 b; unfold writeRecvAck; split
       · exact OFrame.refl s1
-      · exact ⟨rfl, rfl, rfl, rfl⟩
+      · split
+        · exact OFrame.refl s1
+        · exact ⟨rfl, rfl, rfl, rfl⟩
     exact h1.trans (h2 _ _)
   · split
     · exact hrefund
@@ -317,8 +324,8 @@ theorem inv05_eibcOnRefund {s s' : St} {p : Packet} (h : Inv05 s) (hp : p ∈ s.
       simp only [hr, Bool.false_eq_true, if_false]
       omega
 
-theorem inv05_recvPacket {s : St} (c seq ph : Nat) (d : RecvData) (h : Inv05 s) : Inv05 (recvPacket s c seq ph d).1 := by
-  unfold recvPacket
+theorem inv05_recvOpen {s : St} (c seq ph : Nat) (d : RecvData) (h : Inv05 s) : Inv05 (recvOpen s c seq ph d).1 := by
+  unfold recvOpen
   split
   · exact h
   · generalize hs0 : ({ s with receipts := s.receipts ++ [(c, seq)] } : St) = s0
@@ -345,9 +352,9 @@ theorem inv05_recvPacket {s : St} (c seq ph : Nat) (d : RecvData) (h : Inv05 s) 
               · rename_i s2 he
                 exact inv05_eibcOnRecv (InvO.setPacket (inv05_addByAddr _ _ h0) _) (mem_setPacket.mpr (Or.inl rfl)) rfl rfl he
 
-theorem inv05_ackPacket {s s' : St} {c seq ph : Nat} {isTimeout isErr : Bool} (h : Inv05 s)
-    (ha : ackPacket s c seq ph isTimeout isErr = .ok (some s')) : Inv05 s' := by
-  unfold ackPacket at ha
+theorem inv05_ackOpen {s s' : St} {c seq ph : Nat} {isTimeout isErr : Bool} (h : Inv05 s)
+    (ha : ackOpen s c seq ph isTimeout isErr = .ok (some s')) : Inv05 s' := by
+  unfold ackOpen at ha
   split at ha
   · cases ha
   · split at ha
@@ -380,8 +387,8 @@ theorem inv05_ackPacket {s s' : St} {c seq ph : Nat} {isTimeout isErr : Bool} (h
             · cases ha
               exact InvO.setPacket (inv05_addByAddr _ _ h0) _
 
-theorem inv05_sendTransfer {s s' : St} {a c d amt} (h : Inv05 s) (hs : sendTransfer s a c d amt = .ok s') : Inv05 s' := by
-  unfold sendTransfer at hs
+theorem inv05_sendOpen {s s' : St} {a c d amt} (h : Inv05 s) (hs : sendOpen s a c d amt = .ok s') : Inv05 s' := by
+  unfold sendOpen at hs
   split at hs
   · cases hs
   · split at hs
@@ -705,20 +712,28 @@ theorem inv_step_both {s : St} (o : Op) (h : Inv s) : Inv (step s o).1 := by
   have hk : KeysNodup s.packets := InvF.keys h.1
   have h5 := h.2
   cases o with
-  | recv c seq ph d => exact inv05_recvPacket c seq ph d h5
-  | send a c d amt => exact (inv_ofM2 h (fun _ e => ⟨inv_sendTransfer h.1 e, inv05_sendTransfer h5 e⟩)).2
+  | recv c seq ph d =>
+    show Inv05 (recvPacket s c seq ph d).1
+    rcases recvPacket_cases s c seq ph d with e | e <;> rw [e]
+    · exact h5
+    · exact inv05_recvOpen c seq ph d h5
+  | send a c d amt =>
+    exact (inv_ofM2 (m := sendTransfer s a c d amt) h
+      (fun _ e => ⟨inv_sendOpen h.1 (sendTransfer_ok e), inv05_sendOpen h5 (sendTransfer_ok e)⟩)).2
   | ack c seq ph isErr =>
     simp only [step]
     split
     · exact h5
-    · rename_i s' e; exact inv05_ackPacket h5 e
+    · rename_i s' e; exact inv05_ackOpen h5 (ackPacket_ok e)
     · exact h5
   | timeout c seq ph =>
     simp only [step]
     split
     · exact h5
-    · rename_i s' e; exact inv05_ackPacket h5 e
+    · rename_i s' e; exact inv05_ackOpen h5 (ackPacket_ok e)
     · exact h5
+  | chanClose c => exact (inv_ofM2 h (fun _ e => ⟨Inv04.of_frame (frame_setChanClosed e) h.1, Inv05.of_frame (oframe_setChanClosed e) h5⟩)).2
+  | chanOpen c => exact (inv_ofM2 h (fun _ e => ⟨Inv04.of_frame (frame_setChanClosed e) h.1, Inv05.of_frame (oframe_setChanClosed e) h5⟩)).2
   | finalize a rid ph t src seq => exact (inv_ofM2 h (fun _ e => ⟨inv_msgFinalize h.1 e, msgFinalize_inv05 h5 hk e⟩)).2
   | finalizeByKey a b => exact (inv_ofM2 h (fun _ e => ⟨inv_msgFinalizeByKey h.1 e, msgFinalizeByKey_inv05 h5 hk e⟩)).2
   | fulfill a id fee => exact (inv_ofM2 h (fun _ e => ⟨inv_msgFulfill h.1 e, inv05_msgFulfill h5 e⟩)).2
